@@ -322,6 +322,14 @@ def run(ctx):
 
 def replay(ctx, data):
     r = data['replay']
+    if 'race' in r:
+        # all schedules of that case again (deterministic); the recorded
+        # schedule is among them
+        res = _race_job(tuple(r['race']) + (2,))
+        print('race', r['race'], 'recorded schedule', r.get('schedule'))
+        for key, detail, _ in res['violations']:
+            print('VIOLATED', key, detail['what'])
+        return 1 if res['violations'] else 0
     part = report.Part()
     cfg = [tuple(c) for c in r['cfg']]
     ending = [tuple(tuple(x) if isinstance(x, list) else x for x in e)
